@@ -372,3 +372,119 @@ Example torn_tail_nonvacuous :
   crash_append 4 [7; 7; 7; 7] 3 (repeat 1 8) = repeat 1 8 ++ [7; 7; 7] /\
   append_record 4 [6; 6; 6; 6] (repeat 1 8 ++ [7; 7; 7]) = (3, repeat 1 8 ++ [6; 6; 6; 6]).
 Proof. vm_compute. split; reflexivity. Qed.
+
+(* ---------------------------------------------------------------- windows of any length (files of any size) *)
+(* the index-level loop the harness runs on large files is the byte-level loop with the records dropped *)
+Lemma loop_by_index sz f mx desc : forall fuel idx,
+  get_records_loop sz f fuel idx mx desc =
+  map (fun i => (i, record sz (Z.to_nat (i - 1)) f)) (get_records_idx_loop fuel idx mx desc).
+Proof.
+  induction fuel as [|fuel IH]; intros idx; [reflexivity|].
+  cbn [get_records_loop get_records_idx_loop].
+  destruct ((idx =? 0) || (mx <? idx)); [reflexivity|]. cbn [map]. f_equal. apply IH.
+Qed.
+
+Definition rmap {A B} (g : A -> B) (r : rres A) : rres B :=
+  match r with ROk a => ROk (g a) | RErr e => RErr e | RCrash => RCrash end.
+
+Lemma get_records_by_index sz start n desc f :
+  get_records sz start n desc f =
+  rmap (map (fun i => (i, record sz (Z.to_nat (i - 1)) f))) (get_records_idx start n desc (num_records sz f)).
+Proof.
+  unfold get_records, get_records_idx. destruct (start <? 1); [reflexivity|]. destruct (n <? 0); [reflexivity|].
+  cbn [rmap]. f_equal. apply loop_by_index.
+Qed.
+
+Lemma window_length start n desc cnt : 1 <= start -> 0 <= n ->
+  lenZ (window start n desc cnt) =
+  if cnt <? start then 0 else if desc then Z.min n start else Z.min n (cnt - start + 1).
+Proof.
+  intros Hs Hn. unfold window, lenZ. destruct (Z.ltb_spec cnt start); [reflexivity|].
+  destruct desc; rewrite map_length, seq_length; lia.
+Qed.
+
+(* the index-level model in closed form, and the number of records a window returns: never capped by anything
+   but n and the end of the run *)
+Lemma get_records_idx_spec start n desc cnt : 1 <= start -> 0 <= n -> 0 <= cnt ->
+  get_records_idx start n desc cnt = ROk (window start n desc cnt) /\
+  lenZ (window start n desc cnt) = if cnt <? start then 0 else if desc then Z.min n start else Z.min n (cnt - start + 1).
+Proof.
+  intros Hs Hn Hc. split; [|apply window_length; assumption].
+  (* instantiate the byte-level specification with a file of cnt one-byte records and project the indices *)
+  pose (f := repeat 0 (Z.to_nat cnt)).
+  assert (Hnum : num_records 1 f = cnt).
+  { unfold num_records, count, f. rewrite repeat_length, Nat.div_1_r. lia. }
+  pose proof (get_records_spec 1 start n desc f Hs Hn) as Hspec.
+  rewrite get_records_by_index, Hnum in Hspec.
+  destruct (get_records_idx start n desc cnt) as [l| |]; cbn [rmap] in Hspec; try discriminate.
+  injection Hspec as Hspec. f_equal.
+  apply (f_equal (map fst)) in Hspec. rewrite !map_map in Hspec. cbn [fst] in Hspec.
+  rewrite !map_id in Hspec. exact Hspec.
+Qed.
+
+Lemma get_records_any_length sz start n desc f : 1 <= start -> 0 <= n ->
+  exists l, get_records sz start n desc f = ROk l /\
+    get_records_idx start n desc (num_records sz f) = ROk (map fst l) /\
+    lenZ l = (let cnt := num_records sz f in
+              if cnt <? start then 0 else if desc then Z.min n start else Z.min n (cnt - start + 1)) /\
+    (forall i r, In (i, r) l -> r = record sz (Z.to_nat (i - 1)) f).
+Proof.
+  intros Hs Hn. eexists. split; [apply get_records_spec; assumption|]. split; [|split].
+  - rewrite map_map. cbn [fst]. rewrite map_id. apply get_records_idx_spec; [assumption|assumption|unfold num_records; lia].
+  - unfold lenZ. rewrite map_length. apply (window_length start n desc (num_records sz f) Hs Hn).
+  - intros i r Hin. apply in_map_iff in Hin. destruct Hin as (i' & Heq & _). injection Heq as <- <-. reflexivity.
+Qed.
+
+(* non-vacuity, beyond any small enumeration: 70 000 records, a window of 70 001 from either end is the whole file *)
+Example window_large :
+  lenZ (window 1 70001 false 70000) = 70000 /\ lenZ (window 70000 70001 true 70000) = 70000 /\
+  lenZ (window 905 4097 false 5000) = 4096 /\ lenZ (window 904 4097 false 5000) = 4097.
+Proof. rewrite !window_length by lia. vm_compute. repeat split; reflexivity. Qed.
+
+(* ---------------------------------------------------------------- histories with refused writes *)
+Lemma hfinal_completed sz : forall hs f, hfinal sz hs f = run sz (completed hs) f.
+Proof.
+  induction hs as [|h r IH]; intros f; [reflexivity|]. destruct h as [o|o]; cbn [hfinal completed run hstep snd]; apply IH.
+Qed.
+
+Lemma htrace_completed sz : forall hs f, do_entries hs (htrace sz hs f) = trace sz (completed hs) f.
+Proof.
+  induction hs as [|h r IH]; intros f; [reflexivity|].
+  destruct h as [o|o]; cbn [htrace do_entries completed trace hstep snd]; [f_equal|]; apply IH.
+Qed.
+
+Lemma htrace_length sz : forall hs f, length (htrace sz hs f) = length hs.
+Proof. induction hs as [|h r IH]; intros f; [reflexivity|]. cbn [htrace length]. f_equal. apply IH. Qed.
+
+(* a refused operation leaves the file it found and never reports success for something it had to write *)
+Lemma refused_step sz o f :
+  snd (hstep sz (HRefused o) f) = f /\
+  (match o with ORead _ _ _ => True | _ => fst (fst (hstep sz (HRefused o) f)) <> ST_OK end).
+Proof.
+  split; [reflexivity|]. destruct o; cbn [hstep fst refused_result]; try exact I;
+    match goal with |- context [fst ?r =? ST_OK] => destruct (Z.eqb_spec (fst r) ST_OK) as [E|E]; [cbn; discriminate|exact E] end.
+Qed.
+
+Lemma refused_no_trace sz hs f :
+  hfinal sz hs f = run sz (completed hs) f /\
+  do_entries hs (htrace sz hs f) = trace sz (completed hs) f /\
+  (forall o g, snd (hstep sz (HRefused o) g) = g /\
+     (match o with ORead _ _ _ => True | _ => fst (fst (hstep sz (HRefused o) g)) <> ST_OK end)).
+Proof. split; [apply hfinal_completed|]. split; [apply htrace_completed|]. intros o g. apply refused_step. Qed.
+
+Lemma history_with_refused sz : (0 < sz)%nat -> forall hs f j, Forall (op_wf sz) (completed hs) -> (j < count sz f)%nat ->
+  untouched sz j (completed hs) f ->
+  record sz j (hfinal sz hs f) = record sz j f /\ (j < count sz (hfinal sz hs f))%nat.
+Proof. intros Hsz hs f j Hwf Hj Hun. rewrite hfinal_completed. apply history; assumption. Qed.
+
+(* non-vacuity: append, a refused append (another record), append, a refused substitute, substitute *)
+Example refused_nonvacuous :
+  let f := repeat 1 4 in
+  let hs := [HDo (OAppend [2; 2; 2; 2]); HRefused (OAppend [9; 9; 9; 9]); HDo (OAppend [3; 3; 3; 3]);
+             HRefused (OSubst 0 [8; 8; 8; 8]); HDo (OSubst 1 [5; 5; 5; 5])] in
+  htrace 4 hs f =
+    [((0, 2), repeat 1 4 ++ repeat 2 4); ((3, 4), repeat 1 4 ++ repeat 2 4);
+     ((0, 3), repeat 1 4 ++ repeat 2 4 ++ repeat 3 4); ((3, 4), repeat 1 4 ++ repeat 2 4 ++ repeat 3 4);
+     ((0, 0), repeat 1 4 ++ repeat 5 4 ++ repeat 3 4)] /\
+  hfinal 4 hs f = repeat 1 4 ++ repeat 5 4 ++ repeat 3 4.
+Proof. vm_compute. split; reflexivity. Qed.
